@@ -1407,7 +1407,7 @@ MARPLE_BLOCK_HEAD = """
 Require Import Spectrum.Theory.Ops Spectrum.Theory.Vec Spectrum.Model.CovarMarple Spectrum.Proofs.LoopIRMarple0.
 """
 MARPLE_BLOCKS = {
-    'arcovar_marple': (['loopir_arcovar_marple_assert', 'loopir_arcovar_marple_order0'], """
+    'arcovar_marple': (['loopir_arcovar_marple_assert', 'loopir_arcovar_marple_order0', 'loopir_arcovar_marple_order1'], """
 Lemma prog_arcovar_marple_is_ref : prog_arcovar_marple = prog_arcovar_marple_gen0.
 Proof. reflexivity. Qed.
 Theorem loopir_arcovar_marple_assert :
@@ -1424,6 +1424,15 @@ Theorem loopir_arcovar_marple_order0 :
   | None => OErr AssertionError
   end.
 Proof. intros. rewrite prog_arcovar_marple_is_ref. apply arcovar_marple_ir_order0; assumption. Qed.
+Theorem loopir_arcovar_marple_order1 :
+  forall (F : Type) (OF : Ops F) (L : Laws OF) (feq : F -> F -> bool) (stop : Z -> F -> F -> bool) (t : bool) (x : list F),
+  x <> [] ->
+  run feq stop prog_arcovar_marple [Some (VArr t x); Some (VI 1)] =
+  match arcovar_marple x 1 with
+  | Some (af, pf, ab, pb) => ORet [VArr false af; VF pf; VArr false ab; VF pb; VArr true []]
+  | None => OErr AssertionError
+  end.
+Proof. intros. rewrite prog_arcovar_marple_is_ref. apply arcovar_marple_ir_order1; assumption. Qed.
 """),
     'modcovar_marple': (['loopir_modcovar_marple_order0', 'loopir_modcovar_marple_order1'], """
 Lemma prog_modcovar_marple_is_ref : prog_modcovar_marple = prog_modcovar_marple_gen0.
